@@ -274,6 +274,7 @@ TIE = {
     'get_ancestors': ['C02', 'C05', 'C07'],
     'get_parent_block': ['C02', 'C05', 'C07'],
     'mempool_verify': ['C08', 'C13'],
+    'commit': ['C01', 'C02', 'C05', 'C08'],
 }
 # messages.rs verifiers, aggregator.rs makers and entry points (tools/skelagg.py -> coq/GenAgg.v)
 TIE.update({
